@@ -97,7 +97,13 @@ func (ni *Native) getMatcher(tablename, expression string, kind ExpressionType) 
 // surrounding whitespace is dropped and repeated whitespace collapses into one space.
 // Expressions that differ in any other character have different keys.
 func hashExpressionKey(s string) string {
-	return strings.Join(strings.Fields(s), " ")
+	return strings.Join(strings.FieldsFunc(s, isExpressionSpace), " ")
+}
+
+// isExpressionSpace tells whether the character separates tokens of the expression language:
+// space, tab and line breaks, as in the lexer. Other Unicode spaces are not part of the language
+func isExpressionSpace(r rune) bool {
+	return r == ' ' || r == '\t' || r == '\n' || r == '\r'
 }
 
 // AddUpdater add expression updater to use on key or filter queries
